@@ -104,7 +104,7 @@ def ukfc_case(g, tier):
     n = r.randint(1, big)
     m = 1 if r.random() < 0.2 else r.randint(1, big)     # scalar measurements: the likelihood's m = 1 path
     k = r.choice([1, 1, 2, 3, 4])
-    fail = r.choice([0] * 12 + [1, 2, 3])
+    fail = r.choice([0] * 12 + [1, 2, 3, 4])   # 4: predictedMeasure fails but hands back a non-empty matrix
     online = variant == 1 and r.random() < 0.4
     pstyle = r.choice(["full", "full", "full", "dyadic", "singular", "diag"])
     # one overall scale (the property bounds the conditioning of S, not its magnitude)
@@ -161,7 +161,7 @@ def ukfc_lines(meta, Bs=None):
     kf = ["kfc", str(n), str(m), str(k)] + U.cm_tokens(meta["H"]) + U.cm_tokens(meta["Reff"]) + yv + bel + outw
     mu = None
     if Bs is not None:
-        mu = ["uukfc", str(v), str(n), str(nz), str(m), str(k)] + par + [str(meta["fail"])] + U.cm_tokens(meta["H"])
+        mu = ["uukfc", str(v), str(n), str(nz), str(m), str(k)] + par + [str(2 if meta["fail"] == 4 else meta["fail"])] + U.cm_tokens(meta["H"])
         if v == 1:
             mu += U.cm_tokens(meta["D"])
         mu += U.cm_tokens(meta["R"]) + yv + bel + outw
@@ -194,7 +194,7 @@ def derive_step(meta, g):
         st["Ps"] = [U.scale_cov(U.rnd_psd(g, n, r.choice(["full", "full", "dyadic", "singular", "diag"])), [sc] * n) for _ in range(k)]
         st["means"] = [[v * sc for v in g.vec(n)] for _ in range(k)]
         st["y"] = [v * sc for v in g.vec(meta["m"])]
-        st["fail"] = r.choice([0] * 8 + [1, 2, 3])
+        st["fail"] = r.choice([0] * 8 + [1, 2, 3, 4])
     return st
 
 
@@ -700,7 +700,7 @@ def run(ctx):
             "UKFCorrection::correctStep:Generic (augmented)": sum(v for k_, v in hist.items() if k_.startswith("correct:augmented") and "+fail1" not in k_),
             "UKFCorrection::correctStep:Generic:update_weights_online": sum(v for k_, v in hist.items() if k_.startswith("correct:augmented") and "+online" in k_ and "+fail1" not in k_),
             "UKFCorrection::correctStep:Additive": sum(v for k_, v in hist.items() if k_.startswith("correct:additive") and "+fail1" not in k_),
-            "UKFCorrection::correctStep:!valid (transform failed)": sum(v for k_, v in hist.items() if "+fail2" in k_),
+            "UKFCorrection::correctStep:!valid (transform failed)": sum(v for k_, v in hist.items() if "+fail2" in k_ or "+fail4" in k_),
             "UKFCorrection::correctStep:!valid_innovation": sum(v for k_, v in hist.items() if "+fail3" in k_),
             "UKFCorrection::correctStep:update loop": sum(v for k_, v in hist.items() if k_.startswith("correct:") and "+fail" not in k_),
             "UKFCorrection::getLikelihood:no innovations (false)": notes.get("getLikelihood_without_innovations_returns_false", 0),
